@@ -234,9 +234,9 @@ def run(ctx):
                     note='window arithmetic, chunk assignment, declared-vs-written, store lookup')
     res, path, n = ctx.generate('Waveforms', 'Gen_Waveforms%s.cfg' % sfx, timeout=3000)
     k = 0
-    # every case costs a few milliseconds (real files are written): beyond 200 k generated cases a regular
+    # every case costs a few milliseconds (real files are written): beyond 120 k generated cases a regular
     # stride over the (sorted) case file is replayed and the run is marked as not exhaustive
-    stride = max(1, -(-n // 200000))
+    stride = max(1, -(-n // 120000))
     if stride > 1:
         ctx.exhaustive = False
     with tmp_dir(ctx) as d:
